@@ -34,10 +34,11 @@ def lin_cases():
     return [(o, e) for o in (2, 3, 4, 5) for e in (0.2, 0.1, 0.05, 0.02)]
 
 
-def lin_impl(order, eps):
+def lin_impl(order, eps, clear=False):
     from rtctools.optimization.linearized_order_goal_programming_mixin import LinearizedOrderGoal
 
-    LinearizedOrderGoal._linear_coefficients = {}
+    if clear:
+        LinearizedOrderGoal._linear_coefficients = {}
     lines = LinearizedOrderGoal._get_linear_coefficients(order, eps)
     return [(float(a), float(b)) for a, b in lines]
 
@@ -149,10 +150,17 @@ def run(ctx):
     # ---- A ----
     if not replay:
         rows = []
-        for order, eps in lin_cases():
-            lines = lin_impl(order, eps)
+        # all orders and tolerances in one process, the class-level table of coefficients filling up as it goes
+        for i, (order, eps) in enumerate(lin_cases()):
+            lines = lin_impl(order, eps, clear=(i == 0))
             xs = recover_breaks(lines)
             rows.append((order, eps, lines, xs))
+        for order, eps, lines, _ in reversed(rows):
+            again = lin_impl(order, eps)
+            ctx.count("linearised_repeated")
+            if again != lines:
+                ctx.violation("linearised/repeated", {"order": order, "tolerance": eps, "first": lines, "again": again},
+                              what="the coefficients for order %d, tolerance %s differ when asked a second time" % (order, eps))
         vals = core.eval_terms(ID + "lin", ["Xq", "LinOrder"],
                                [lin_term(o, Fraction(e) * (1 + Fraction(1, 10**6)) + Fraction(1, 10**9), xs) for o, e, _, xs in rows])
         for (order, eps, lines, xs), v in zip(rows, vals):
